@@ -273,7 +273,7 @@ func (st *c14State) phaseGlob() {
 		e2e = e2e[:nPat]
 	}
 	bucket := "c14glob"
-	if r := CreateBucket(st.env.Root, bucket); !r.OK() {
+	if r := CreateBucket(st.env.Root, bucket, s3c.KV{K: "x-amz-object-ownership", V: "BucketOwnerPreferred"}, s3c.KV{K: "x-amz-grant-full-control", V: "alice"}); !r.OK() {
 		c.Inconclusive("create bucket: %v", r)
 		return
 	}
@@ -542,7 +542,17 @@ func (st *c14State) phasePolicies() {
 	var fail sync.Once
 	for w := 0; w < nw; w++ {
 		bucket := fmt.Sprintf("c14pol%d", w)
-		if r := CreateBucket(st.env.Root, bucket); !r.OK() {
+		// every other bucket carries an ACL that grants every test account full control: a
+		// stored policy decides alone, whatever the ACL would have granted
+		var hdrs []s3c.KV
+		if w%2 == 1 {
+			var ids []string
+			for _, u := range c14Users {
+				ids = append(ids, u)
+			}
+			hdrs = []s3c.KV{{K: "x-amz-object-ownership", V: "BucketOwnerPreferred"}, {K: "x-amz-grant-full-control", V: strings.Join(ids, ",")}}
+		}
+		if r := CreateBucket(st.env.Root, bucket, hdrs...); !r.OK() {
 			c.Inconclusive("create bucket: %v", r)
 			return
 		}
